@@ -8,3 +8,6 @@ import Ypv.Props.C07
 #print axioms Ypv.C07.search_paths_reresolve
 #print axioms Ypv.C07.search_paths_walk
 #print axioms Ypv.C07.escapePathSection_is_escText
+#print axioms Ypv.C07.search_in_document_order
+#print axioms Ypv.C07.search_reports_once
+#print axioms Ypv.C07.positions_distinct
